@@ -2,6 +2,11 @@
   H2StreamStateMachine: an interpreter of the *generated* transition table
   `Gen.streamTable`, with the side-effect functions written out by hand in
   the order of the source.
+
+  The state is split into a finite *shape* (state, role, the four flags,
+  closed-by) and the stream id, so that statements about the machine are
+  decidable by enumeration (`decide +kernel` over 1 680 shapes × 19 inputs)
+  and lift to every stream id by definition.
 -/
 import H2.Model.Basic
 
@@ -16,9 +21,8 @@ inductive SEv where
   | AlternativeServiceAvailable
 deriving DecidableEq, Repr, Inhabited
 
-structure SM where
+structure Shape where
   state : StreamState := .IDLE
-  sid : Int
   client : Option Bool := none
   headersSent : Bool := false          -- None/False are both falsy; only truthiness is ever used
   trailersSent : Bool := false
@@ -26,6 +30,19 @@ structure SM where
   trailersReceived : Bool := false
   closedBy : Option StreamClosedBy := none
 deriving DecidableEq, Repr, Inhabited
+
+structure SM where
+  sid : Int
+  sh : Shape := {}
+deriving DecidableEq, Repr, Inhabited
+
+def SM.state (sm : SM) : StreamState := sm.sh.state
+def SM.client (sm : SM) : Option Bool := sm.sh.client
+def SM.headersSent (sm : SM) : Bool := sm.sh.headersSent
+def SM.trailersSent (sm : SM) : Bool := sm.sh.trailersSent
+def SM.headersReceived (sm : SM) : Bool := sm.sh.headersReceived
+def SM.trailersReceived (sm : SM) : Bool := sm.sh.trailersReceived
+def SM.closedBy (sm : SM) : Option StreamClosedBy := sm.sh.closedBy
 
 inductive EffRes where
   | ok (evs : List SEv)
@@ -35,7 +52,7 @@ inductive EffRes where
 deriving DecidableEq, Repr, Inhabited
 
 /-- the side-effect functions; each returns the new flags and what it returned / raised -/
-def runEffect (eff : SideEffect) (sm : SM) : EffRes × SM :=
+def runEffect (eff : SideEffect) (sm : Shape) : EffRes × Shape :=
   match eff with
   | .request_sent => (.ok [.RequestSent], { sm with client := some true, headersSent := true })
   | .response_sent =>
@@ -86,23 +103,34 @@ def runEffect (eff : SideEffect) (sm : SM) : EffRes × SM :=
     else (.ok [.AlternativeServiceAvailable], sm)
   | .send_alt_svc => if sm.headersSent then (.proto, sm) else (.ok [], sm)
 
+/-- what `process_input` does, on the shape alone -/
+inductive ProcRes where
+  | ok (evs : List SEv)
+  | proto                                 -- ProtocolError (invalid input, effect raised it, or an assert fired)
+  | streamClosed (withResetEvent : Bool)
+deriving DecidableEq, Repr, Inhabited
+
+def stepShape (sh : Shape) (inp : StreamInputs) : ProcRes × Shape :=
+  match streamTable sh.state inp with
+  | none => (.proto, { sh with state := .CLOSED })
+  | some (eff, tgt) =>
+    let sh := { sh with state := tgt }
+    match eff with
+    | none => (.ok [], sh)
+    | some e =>
+      match runEffect e sh with
+      | (.ok evs, sh) => (.ok evs, sh)
+      | (.proto, sh) => (.proto, { sh with state := .CLOSED })
+      | (.streamClosed w, sh) => (.streamClosed w, { sh with state := .CLOSED })
+      | (.assertion, sh) => (.proto, { sh with state := .CLOSED })
+
 /-- `process_input` -/
 def SM.process (inp : StreamInputs) : M SM (List SEv) := fun sm =>
-  match streamTable sm.state inp with
-  | none => (.error protoErrSM, { sm with state := .CLOSED })
-  | some (eff, tgt) =>
-    let sm := { sm with state := tgt }
-    match eff with
-    | none => (.ok [], sm)
-    | some e =>
-      match runEffect e sm with
-      | (.ok evs, sm) => (.ok evs, sm)
-      | (.proto, sm) => (.error protoErrSM, { sm with state := .CLOSED })
-      | (.streamClosed withEv, sm) =>
-        let evs := if withEv then [Event.StreamReset sm.sid (some ErrorCodes.STREAM_CLOSED) false] else []
-        (.error (mkStreamClosed sm.sid evs), { sm with state := .CLOSED })
-      | (.assertion, sm) => (.error protoErrSM, { sm with state := .CLOSED })
-where
-  protoErrSM : Exc := mkExc .ProtocolError
+  match stepShape sm.sh inp with
+  | (.ok evs, sh) => (.ok evs, { sm with sh := sh })
+  | (.proto, sh) => (.error (mkExc .ProtocolError), { sm with sh := sh })
+  | (.streamClosed withEv, sh) =>
+    let evs := if withEv then [Event.StreamReset sm.sid (some ErrorCodes.STREAM_CLOSED) false] else []
+    (.error (mkStreamClosed sm.sid evs), { sm with sh := sh })
 
 end H2
